@@ -189,8 +189,11 @@ def r4_loop_templates(ctx, T, rule="C02.R4"):
         labs = [e for e in seq if e.kind == "label"]
         jmps = [e for e in seq if e.kind == "jump"]
         jf = [e for e in seq if e.kind == "jump_if_false"]
+        # head = first label emitted; back edge = last jump; the exit is a conditional jump to
+        # out-of-for that lies between them (inner labels / jumps of the step-sign test are allowed)
         pv_same = labs and jmps and str(labs[0].args[1]) == str(jmps[-1].args[1])
-        if not (len(labs) == 1 and len(jmps) == 1 and pv_same and jf and jf[0].name == "out-of-for"):
+        exits = [e for e in jf if e.name == "out-of-for"]
+        if not (pv_same and len(exits) == 1 and seq.index(labs[0]) < seq.index(exits[0]) < seq.index(jmps[-1])):
             ok = False
     ctx.decide(ok, rule, rule + ":for-helper", f.loc, "loop label = back-edge target; exit to out-of-for",
                "the FOR helper's back edge does not target its own loop label, or it does not exit to out-of-for")
@@ -314,7 +317,8 @@ def r6_template_reachability(ctx, rule="C02.R6"):
                 in_scope = lid is None or it.iters.get(lid) == 2
                 nm = sympath.show(it.name)
                 loc = "%s:%s" % (it.fn.file, it.line)
-                if it.kind == "emit" and it.sub in ("BLOCK", "STMT", "EXPR", "USER") and in_scope:
+                is_throw = it.kind == "emit" and it.sub == "push" and it.name == ("s", "push(Throw)")
+                if it.kind == "emit" and (it.sub in ("BLOCK", "STMT", "EXPR", "USER") or is_throw) and in_scope:
                     key = "%s:%s:%s@%s:reachable" % (rule, it.fn.name, it.sub, _site(it))
                     dead_label = ""
                     if i not in live:
@@ -327,7 +331,7 @@ def r6_template_reachability(ctx, rule="C02.R6"):
                                       "targets: %s)" % (sympath.show(tr[j].name), targets)) if j >= 0 else \
                             "it follows an unconditional jump with no label in between"
                     note(key, loc, i in live,
-                         "the user code emitted here (%s) can never run: %s, when %s"
+                         "the code emitted here (%s: user code, or the raising of a run-time error) can never run: %s, when %s"
                          % (nm, dead_label, conds))
                 elif it.kind in ("jump", "jump_if_false") and lid is None and i in live:
                     n = len(labels.get(it.key(), ()))
@@ -362,7 +366,8 @@ def r6_template_reachability(ctx, rule="C02.R6"):
 def _site(it):
     """line-independent site id of an emission: the source text of the emitted operand is not in the
     facts, so sites are numbered by source order inside their function."""
-    lines = sorted({e.line for e in _SITE_EVS(it.fn) if e.kind == it.sub or (it.sub == "USER" and e.kind == "gen")})
+    lines = sorted({e.line for e in _SITE_EVS(it.fn) if e.kind == it.sub or (it.sub == "USER" and e.kind == "gen")
+                    or (it.sub == "push" and e.kind == "push" and e.instr == "Throw")})
     return "#%d" % lines.index(it.line) if it.line in lines else "?"
 
 
